@@ -103,6 +103,15 @@ func cmdCheck(args []string) int {
 	}
 	var known []KnownFinding
 	readJSON(filepath.Join(*vdir, "known_findings.json"), &known)
+	// bounds / trusted base text of the property (meta.json is what MANIFEST.json is generated from)
+	var meta map[string]struct {
+		LevelNote string `json:"level_note"`
+	}
+	readJSON(filepath.Join(*vdir, "meta.json"), &meta)
+	if m, ok := meta[id]; ok && spec.Bounds == "" {
+		spec.Bounds = m.LevelNote
+		spec.Assumptions = append(spec.Assumptions, "bounds, stubs and what lies outside the claim: "+m.LevelNote)
+	}
 
 	ld, err := Load(*repo, filepath.Join(*vdir, "harness"), nil)
 	if err != nil {
